@@ -104,6 +104,9 @@ func c26Gen(r *rng.Rand, i int, tier string) interface{} {
 			c26x.Op{Op: "connect", R: 1}, c26x.Op{Op: "fail", R: 0}, c26x.Op{Op: "commit"})
 	default:
 		in.Mode = "stress"
+		if r.Bool() {
+			in.Mode = "stress_connect"
+		}
 		in.Ms = 150
 		if tier == "thorough" {
 			in.Ms = 600
@@ -196,7 +199,7 @@ func c26Run(raw json.RawMessage) (res Result, err error) {
 			res.Detail = "master process died: " + names[fault]
 		}
 		// finding class = mirror of the Coq guard: the schedule is outside the stable class because ...
-		hasFail, hasConn := in.Mode == "stress", in.Mode == "stress"
+		hasFail, hasConn := in.Mode == "stress", strings.HasPrefix(in.Mode, "stress")
 		seenCommit := false
 		for _, op := range in.Ops {
 			if op.Op == "commit" {
@@ -216,7 +219,7 @@ func c26Run(raw json.RawMessage) (res Result, err error) {
 			res.Class = "map-write-during-fanout"
 		}
 		tags = append(tags, fmt.Sprintf("fault=%d", fault))
-		if in.Mode == "stress" {
+		if strings.HasPrefix(in.Mode, "stress") {
 			// no label trace in stress runs
 			enc, evs = nil, nil
 		} else if fault != 0 && !strings.HasSuffix(strings.Join(evs, ";"), fmt.Sprintf("OFault %d", fault)) {
